@@ -10,7 +10,8 @@ EXPLANATION = (
     "obligations - every function on the seeded path declares which sources of run-to-run nondeterminism it may "
     "read (global RNG state, fresh entropy, the string hash seed via set iteration / hash(), directory listing "
     "order); the current source is scanned and every tagged read outside the declared frame fails an obligation "
-    "(syntactic, over-approximating).  Bounded stand-in: the same analysis repeated in process and in fresh "
+    "(syntactic, over-approximating); plus one ordinary block contract, brew#rng_handoff (the seeded generator "
+    "reaches every model object with an estimator attribute).  Bounded stand-in: the same analysis repeated in process and in fresh "
     "interpreters with different PYTHONHASHSEED, all orders of the returned models fed back.")
 ASSUMPTIONS = [
     "the frame analysis is syntactic: it sees direct calls (np.random.*, random.*, hash(), set iteration idioms, "
@@ -19,7 +20,17 @@ ASSUMPTIONS = [
     "an explicit numpy Generator passed as argument is the only declared randomness of the seeded path",
 ]
 
-CONTRACTS = []
+# the seeded generator of brew reaches the model: every object that looks like a single (untrained) model - it
+# has an `estimator` attribute - gets brew's generator, whatever its class; a list of trained models is left alone
+handoff = Contract(
+    target="mokapot.brew.brew#rng_handoff",
+    block={"start": "try:", "start_contains": "model.estimator", "end": "try:", "end_contains": "model.estimator"},
+    free={"model": "ModelObj", "rng": "Gen", "model.rng": "Gen"},
+    fields={"ModelObj.estimator": "maybe Est"},
+    exit_ghost=["let out_rng = model.rng"],
+    ensures=["implies(has_attr(model, 'estimator'), out_rng == rng)"],
+)
+CONTRACTS = [handoff]
 # function -> declared frame: {tag: justification}.  An empty dict = reads nothing but its arguments / generator.
 FRAMES = {
     "mokapot.brew.brew": {},
@@ -62,3 +73,10 @@ FRAMES_BY_DESIGN = {
                                                    "(sorted target peptides)"},
 }
 BOUNDED = {"module": "harness.c08"}
+
+MUTANTS = [
+    {"name": "generator-not-handed-to-the-model", "target": "mokapot.brew.brew#rng_handoff",
+     "find": "        model.rng = rng\n", "replace": "        pass\n"},
+    {"name": "model-gets-a-fresh-generator", "target": "mokapot.brew.brew#rng_handoff",
+     "find": "        model.rng = rng\n", "replace": "        model.rng = np.random.default_rng()\n"},
+]
